@@ -15,7 +15,9 @@ Ltac splitdec := repeat match goal with
   | |- context [Rlt_dec ?a ?b] => destruct (Rlt_dec a b)
   | |- context [Rle_dec ?a ?b] => destruct (Rle_dec a b)
   end.
-Ltac eqgen := intros; ungen; unspec; unR; splitR; splitdec; try reflexivity; try lra; try (exfalso; lra).
+(* the closing steps tolerate commuted / regrouped numerators and denominators of a quotient *)
+Ltac eqgen := intros; ungen; unspec; unR; cbv zeta; splitR; splitdec; try reflexivity; try lra; try (exfalso; lra);
+  try (unfold Rdiv; repeat (f_equal; try lra)).
 
 (* ---- 1. generated kernel = documented formula (the only lemmas that look inside Gen) *)
 Lemma AlgebraicProduct_eq a b : AlgebraicProduct_compute a b = AlgebraicProduct a b. Proof. eqgen. Qed.
